@@ -669,14 +669,31 @@ class QueryObjectDescriptor(CanBehaveLikeAVariable[T], ABC):
                 self._is_false_ = self._child_._is_false_
             if self._is_false_ and not self._yield_when_false_:
                 continue
-            if self._child_:
-                for conclusion in self._child_._conclusion_:
-                    v = conclusion._evaluate__(v)
-            self._warn_on_unbound_variables_(v, selected_vars)
-            if selected_vars:
-                yield from self._bind_selected_variables_(list(selected_vars), v)
-            else:
-                yield v
+            # a branch can fire for a row that does not bind every variable its conclusions mention (the base failed at a
+            # condition before the one that binds it): the conclusions are drawn for each value of such a variable.
+            for v in self._bind_selected_variables_(self._unbound_conclusion_variables_(v), v):
+                if self._child_:
+                    for conclusion in self._child_._conclusion_:
+                        v = conclusion._evaluate__(v)
+                self._warn_on_unbound_variables_(v, selected_vars)
+                if selected_vars:
+                    yield from self._bind_selected_variables_(list(selected_vars), v)
+                else:
+                    yield v
+
+    def _unbound_conclusion_variables_(self, binding: Dict[int, HashedValue]) -> List[Variable]:
+        """
+        The variables with a domain that the conclusions to be drawn mention and the binding does not bind.
+        """
+        unbound = []
+        if self._child_:
+            for conclusion in self._child_._conclusion_:
+                for var in conclusion._unique_variables_:
+                    var = var.value
+                    if (isinstance(var, Variable) and not isinstance(var, Literal) and var._id_ not in binding
+                            and var._domain_ and not var._is_inferred_ and var not in unbound):
+                        unbound.append(var)
+        return unbound
 
     def _bind_selected_variables_(self, selected_vars: List[CanBehaveLikeAVariable],
                                   binding: Dict[int, HashedValue]) -> Iterable[Dict[int, HashedValue]]:
